@@ -267,6 +267,13 @@ pub fn run_history(seed: u64, index: u64, knobs: &Knobs, out: &mut Out) {
     if knobs.force_unsync {
         cfg.flavour = Flavour::Unsync;
     }
+    // a third of the C16 histories run without the lock-step backends (so that file arenas with
+    // Options::unify == false, which are forced to the unified layout, are exercised too)
+    let mut knobs_local = knobs.clone();
+    if knobs.want_other_backend && index % 3 == 0 {
+        knobs_local.want_other_backend = false;
+    }
+    let knobs = &knobs_local;
     if knobs.want_other_backend {
         let room = cfg.cap - cfg.prefix().min(cfg.cap);
         cfg.unify = true;
@@ -316,6 +323,7 @@ pub fn run_history(seed: u64, index: u64, knobs: &Knobs, out: &mut Out) {
         resync: false,
         foreign_viols: 0,
         tmp_recycled: false,
+        unobserved_releases: 0,
         closed: false,
     };
     h.log(format!("cfg {}", cfg.to_json().dump()));
